@@ -81,6 +81,8 @@ class Builder:
         src = os.path.join(REPO, u.tu) if not u.driver else self._driver_tu()
         self.db = AstDB(src, u.filter or ['Opm::'], extra_inc=self.extra_inc)
         tm = TypeMap(u.typemap)
+        for sname, flds in u.structs:
+            tm.add_record(sname, flds)
         fns = {}
         decls = {}
         for fs in u.functions:
